@@ -126,7 +126,7 @@ impl Drop for StdPlanGuard {
 pub struct C06;
 
 /// a matrix back end the forests can be fitted on and asked through (the clauses do not depend on how rows are stored)
-pub trait Mx<T: RealNumber>: smartcore::linalg::Matrix<T> {
+pub trait Mx<T: RealNumber>: smartcore::linalg::Matrix<T> + Sync {
     /// layout: 1 = column-major memory layout where the back end has a choice
     fn build(rows: &[Vec<f64>], layout: u8) -> Self;
     fn vec_from(v: &[f64]) -> Self::RowVector;
@@ -201,7 +201,7 @@ fn criterion_of(s: &str) -> SplitCriterion {
 }
 
 /// the element types the checks run at; the restore step is written against the concrete types (see c12.rs)
-pub trait Elem: RealNumber + Serialize + serde::de::DeserializeOwned + Send + 'static {
+pub trait Elem: RealNumber + Serialize + serde::de::DeserializeOwned + Send + Sync + 'static {
     fn restore_clf(bytes: &[u8], value: &Value, how: u8) -> Result<RandomForestClassifier<Self>, String>;
     fn restore_reg(bytes: &[u8], value: &Value, how: u8) -> Result<RandomForestRegressor<Self>, String>;
 }
@@ -582,7 +582,7 @@ fn alt_rows(case: &Case) -> Vec<Vec<f64>> {
     r
 }
 
-type PredFn<'a, M> = &'a dyn Fn(&M) -> Result<Vec<f64>, smartcore::error::Failed>;
+type PredFn<'a, M> = &'a (dyn Fn(&M) -> Result<Vec<f64>, smartcore::error::Failed> + Sync);
 
 /// issue the case's call sequence against one fitted forest; the first result of each kind is kept
 /// for the oracles, every repetition must be bit-identical to it
@@ -607,13 +607,22 @@ fn run_ops<T: RealNumber, M: Mx<T>>(case: &Case, layout: u8, out: &mut FitOut, x
                 t.reverse();
                 guarded(|| predict(&M::build(&t, layout)))
             }
+            6 => {
+                // the forest is plain data: asked from another (fresh) thread it must give the first answer again
+                match std::thread::scope(|sc| sc.spawn(|| guarded(|| predict(qm))).join()) {
+                    Ok(r) => r,
+                    Err(_) => Err("predict panicked on another thread".to_string()),
+                }
+            }
             _ => {
                 let mut t = case.x.clone();
                 t.extend(case.x.iter().cloned());
                 guarded(|| predict(&M::build(&t, layout)))
             }
         };
-        let name = ["predict", "predict_oob", "predict(other matrix of the training shape)", "predict(single-row matrix)", "predict(training rows stacked twice)", "predict(the same rows in reverse order)"][(*op).min(5) as usize];
+        let name = ["predict", "predict_oob", "predict(other matrix of the training shape)", "predict(single-row matrix)", "predict(training rows stacked twice)", "predict(the same rows in reverse order)", "predict(from another thread)"][(*op).min(6) as usize];
+        // op 6 repeats op 0 on another thread: it is compared with (or becomes) the first predict answer
+        let op = &(if *op == 6 { 0u8 } else { *op });
         let v = match r {
             Ok(Ok(v)) => v,
             Ok(Err(e)) => {
@@ -1421,7 +1430,7 @@ fn gen_case(batch: &str, _index: u64, seed: u64) -> Case {
     let mut ops: Vec<u8> = vec![0];
     let extra = pr.usize_in(1, 5);
     for _ in 0..extra {
-        ops.push(pr.below(6) as u8);
+        ops.push(pr.below(7) as u8);
     }
     pr.shuffle(&mut ops);
     let (pollute, refit_same_thread, ctor) = (pr.chance(0.5), pr.chance(0.5), pr.below(6) as u8);
